@@ -269,6 +269,11 @@ Proof.
   - destruct (sget s x) as [[k l]|]; cbn [snd]; auto.
     destruct (can_sort k) eqn:CS; cbn [snd]; auto.
     apply Forall_set_at; auto. destruct k; try discriminate. split; intros Q; discriminate.
+  - pose proof (G x) as Gx. destruct (sget s x) as [[k l]|]; cbn [snd]; auto.
+    destruct (can_insvia k front); cbn [snd]; auto.
+    destruct (if need_key k then sarg_key s ka else Some 0); cbn [snd]; auto.
+    destruct (if need_val k then sarg_val s va else Some 0); cbn [snd]; auto.
+    apply Forall_set_at; auto. apply keys_ok_ins. auto.
 Qed.
 
 Lemma swf_init n : swf (sinit n).
